@@ -75,11 +75,40 @@ Fixpoint nlookup {A} (k : N) (l : list (N * A)) : option A :=
 Definition toy_norm (norms : list (string * string)) (s : string) : string :=
   match alookup s norms with Some t => t | None => s end.
 
-Definition toy_pw_ok (creds : list (N * (string * string))) (c : N) (name pw : string) : bool :=
-  match nlookup c creds with
-  | Some (name', pw') => String.eqb name name' && String.eqb pw pw'
-  | None => false
+(** The configured `password_hash` text of an entry, relative to the hash of the (name, password) it was made
+    from: the hash itself, or what an operator may leave there instead - nothing, a cut-short copy, a copy with
+    something appended, a copy in upper-case hexadecimal. Only the first is the hash of a password. *)
+Inductive hshape := HFull | HEmpty | HPrefix (n : nat) | HLonger (suffix : string) | HUpper.
+
+(** Symbolic hash text: injective in (strong salt id, name, password); starts with a lower-case letter. *)
+Definition toy_hash (c : N) (name pw : string) : string :=
+  String "h" (unary c ++ toy_ser (mkSess name pw))%string.
+
+Definition apply_shape (sh : hshape) (h : string) : string :=
+  match sh with
+  | HFull => h
+  | HEmpty => EmptyString
+  | HPrefix n => stake n h
+  | HLonger suffix => (h ++ suffix)%string
+  | HUpper => match h with String _ r => String "H" r | EmptyString => EmptyString end
   end.
+
+Definition shape_of (shapes : list (N * hshape)) (c : N) : hshape :=
+  match nlookup c shapes with Some sh => sh | None => HFull end.
+
+Definition toy_stored (creds : list (N * (string * string))) (shapes : list (N * hshape)) (c : N) : option string :=
+  match nlookup c creds with
+  | Some (name', pw') => Some (apply_shape (shape_of shapes c) (toy_hash c name' pw'))
+  | None => None
+  end.
+
+(** The password check: the text computed from what was submitted EQUALS the configured text. *)
+Definition toy_pw_ok_sh (creds : list (N * (string * string))) (shapes : list (N * hshape)) : N -> string -> string -> bool :=
+  login_ok toy_hash (toy_stored creds shapes).
+Definition toy_pw_ok (creds : list (N * (string * string))) : N -> string -> string -> bool := toy_pw_ok_sh creds [].
 
 Definition toy (norms : list (string * string)) (creds : list (N * (string * string))) : prims :=
   mkPrims (toy_norm norms) (toy_pw_ok creds) toy_encrypt toy_decrypt toy_ser toy_de (fun b => b) (fun t => Some t).
+
+Definition toy_sh (norms : list (string * string)) (creds : list (N * (string * string))) (shapes : list (N * hshape)) : prims :=
+  mkPrims (toy_norm norms) (toy_pw_ok_sh creds shapes) toy_encrypt toy_decrypt toy_ser toy_de (fun b => b) (fun t => Some t).
